@@ -154,7 +154,7 @@ def vals_close(model_vals, impl_vals, rtol=1e-9, atol=1e-12):
 
 
 def coords_close(mc, ic):
-    """coordinate lists: exact where possible, else to 1e-12 relative (the model is exact over the
+    """coordinate lists: exact where possible, else to 1e-9 of the scale of the axis (the model is exact over the
     rationals, the implementation rounds to double)"""
     if mc == ic:
         return True
@@ -163,14 +163,16 @@ def coords_close(mc, ic):
     for a, b in zip(mc, ic):
         if len(a) != len(b):
             return False
-        for x, y in zip(a, b):
+        try:
+            fa, fb = [float(Fraction(x)) for x in a], [float(Fraction(y)) for y in b]
+        except Exception:
+            return False
+        # rounding is relative to the scale of the AXIS (start + k*step leaves ~1e-16 * |start| at a point near zero)
+        scale = max([1.0] + [abs(v) for v in fa] + [abs(v) for v in fb])
+        for x, y, fx, fy in zip(a, b, fa, fb):
             if x == y:
                 continue
-            try:
-                fx, fy = float(Fraction(x)), float(Fraction(y))
-            except Exception:
-                return False
-            if abs(fx - fy) > 1e-12 * max(1.0, abs(fx), abs(fy)):
+            if abs(fx - fy) > 1e-9 * scale:
                 return False
     return True
 
